@@ -563,8 +563,12 @@ def inventory(fn, rule, items, metas, root=None, fixed=None, required=True, orde
             targets.setdefault(pat[1][0][1], []).append(pat[2])
         # roots of stores / mutator calls / augmented assignments must not be expanded
         txt = repr(pat)
+        def _root(t_):
+            while isinstance(t_, tuple) and t_ and t_[0] in ('idx', 'attr') and len(t_) > 1:
+                t_ = t_[1]
+            return t_
         for m in mnames:
-            if (pat[0] == 'assign' and any(isinstance(t, tuple) and t[0] in ('idx', 'attr') and repr(('var', m)) in repr(t) for t in pat[1])) \
+            if (pat[0] == 'assign' and any(isinstance(t, tuple) and t[0] in ('idx', 'attr') and _root(t) == ('var', m) for t in pat[1])) \
                     or (pat[0] == 'aug' and repr(('var', m)) in repr(pat[2])) \
                     or (pat[0] == 'expr' and repr(('attr', ('var', m), 'append')) in txt):
                 stored.add(m)
@@ -1075,6 +1079,13 @@ def _roles_not_redefined(fn, rule, matched, binding, root=None, extra_defs_ok=()
                     fn.cx.pending_redef.append((fn, rule, roles[name], name, st))
         if not isinstance(st, (ast.Assign, ast.AugAssign, ast.AnnAssign, ast.For, ast.With)) or id(st) in matched_ids:
             continue
+        if isinstance(st, ast.Assign) and len(st.targets) == 1 and isinstance(st.targets[0], ast.Name):
+            try:
+                nf_st = sym.stmt_nf(st, sym.Normalizer())
+                if nf_st[0] == 'assign' and nf_st[1][0] == nf_st[2]:
+                    continue           # `x = np.array(x)` and the like: a cast, the same value in normal form
+            except Exception:
+                pass
         if isinstance(st, ast.Assign) and len(st.targets) == 1 and isinstance(st.targets[0], ast.Name) and st.targets[0].id in roles \
                 and st.targets[0].id not in params and st.targets[0].id in defined_here and _is_empty_init(st.value):
             inits.setdefault(roles[st.targets[0].id], []).append(st)
